@@ -67,8 +67,9 @@ Multi(ts, n) ==      \* only used on one-minute series, which are gapless (first
 
 Cands == IF arr = <<>> THEN {2} ELSE (Max2(arr[1][1] - 1, 1)) .. (Last(arr)[1] + 4)
 Edge == Export => PrintT(<<"EDGE", ToJson([hist |-> hist', post |-> SubSeq(arr', Max2(1, Len(arr') - 5), Len(arr')), err |-> err'])>>)
-NextM == \/ \E ts \in Cands : Len(arr) < MaxLen /\ Add(ts)
-         \/ \E ts \in {t \in Cands : t % 2 = 0}, n \in 1..MaxMulti : Multi(ts, n)
+AddAny == \E ts \in Cands : Len(arr) < MaxLen /\ Add(ts)
+MultiAny == \E ts \in {t \in Cands : t % 2 = 0}, n \in 1..MaxMulti : Multi(ts, n)
+NextM == AddAny \/ MultiAny
 Next == NextM /\ Edge
 SpecM == Init /\ [][NextM]_vars            \* model checking (per-action coverage)
 Spec == Init /\ [][Next]_vars              \* the same with the EDGE export
